@@ -283,11 +283,23 @@ class Check:
         with ThreadPoolExecutor(max_workers=jobs or NCPU) as ex:
             return list(ex.map(lambda a: self.run(a, timeout=timeout, env=env), cmds))
 
-    def prune_cache(self, keep=400):
+    def prune_cache(self, max_bytes=8 * 2 ** 30, min_age_s=3 * 3600):
+        """Keep the build cache below max_bytes: oldest entries first, never entries younger than min_age_s
+        (other checks may be running concurrently)."""
         try:
-            ds = sorted((os.path.getmtime(os.path.join(CACHE, d)), d) for d in os.listdir(CACHE))
-            for _, d in ds[:-keep]:
-                shutil.rmtree(os.path.join(CACHE, d), ignore_errors=True)
+            ents = []
+            total = 0
+            for d in os.listdir(CACHE):
+                dp = os.path.join(CACHE, d)
+                sz = sum(os.path.getsize(os.path.join(dp, f)) for f in os.listdir(dp))
+                ents.append((os.path.getmtime(dp), sz, dp))
+                total += sz
+            now = time.time()
+            for mt, sz, dp in sorted(ents):
+                if total <= max_bytes or now - mt < min_age_s:
+                    break
+                shutil.rmtree(dp, ignore_errors=True)
+                total -= sz
         except OSError:
             pass
 
